@@ -37,6 +37,20 @@ static long steps, counters[8]; static int trace;
 #define VS_SPIN 128
 static uint64_t spinset[VS_SPIN]; static int nspin;
 
+/* Race detection under the scheduler (sched-tsan build): this unit is not instrumented, so the futex hand-off creates
+ * no happens-before edge; the only edges ThreadSanitizer sees are the ones announced here for the MODELLED primitives
+ * (mutex release -> next acquire; thread create / join go through the real, intercepted pthread calls).  Two accesses
+ * that are ordered only by the cooperative schedule are therefore still reported as a race, in every explored
+ * schedule.  The explorer's callbacks run with access recording switched off.  The symbols are weak: absent (NULL)
+ * in every other build. */
+extern void __tsan_acquire(void*) __attribute__((weak));
+extern void __tsan_release(void*) __attribute__((weak));
+extern void __tsan_ignore_thread_begin(void) __attribute__((weak));
+extern void __tsan_ignore_thread_end(void) __attribute__((weak));
+#define TS_ACQ(p) do { if (__tsan_acquire) __tsan_acquire(p); } while (0)
+#define TS_REL(p) do { if (__tsan_release) __tsan_release(p); } while (0)
+#define TS_IGN(on) do { if (__tsan_ignore_thread_begin) { if (on) __tsan_ignore_thread_begin(); else __tsan_ignore_thread_end(); } } while (0)
+
 static void futex_wait(volatile int* a, int v) { syscall(SYS_futex, a, FUTEX_WAIT, v, NULL, NULL, 0); }
 static void futex_wake(volatile int* a) { syscall(SYS_futex, a, FUTEX_WAKE, 1, NULL, NULL, 0); }
 static void wait_go(vthread_t* t) { while (__atomic_load_n(&t->go, __ATOMIC_ACQUIRE) == 0) futex_wait(&t->go, 0); __atomic_store_n(&t->go, 0, __ATOMIC_RELAXED); }
@@ -44,7 +58,7 @@ static void wake(vthread_t* t) { __atomic_store_n(&t->go, 1, __ATOMIC_RELEASE); 
 
 static void fail(const char* fmt, const void* unused, int b) {
     char buf[200]; (void)unused; snprintf(buf, sizeof buf, fmt, b);
-    active = 0;
+    active = 0; TS_IGN(1);
     cfg.fail(buf);      /* does not return */
     _exit(43);
 }
@@ -90,7 +104,7 @@ static void pick_and_switch(int exiting) {
     vthread_t* me = &T[cur];
     if (trace) { static const char* N[] = {"none","start","lock","unlock","wait","relock","signal","bcast","create","join","yield","exit"}; fprintf(stderr, "[%ld] t%d %s m%d c%d site=%lx\n", steps, cur, N[me->op], me->m, me->c, (unsigned long)me->site); }
     if (++steps > cfg.horizon) fail("livelock candidate: visible-operation horizon exceeded (%d)", NULL, (int)cfg.horizon);
-    if (cfg.visited && cfg.statekey) cfg.visited(cfg.statekey() ^ vs_sched_hash());
+    if (cfg.visited && cfg.statekey) { TS_IGN(1); cfg.visited(cfg.statekey() ^ vs_sched_hash()); TS_IGN(0); }
     /* A thread that comes back to a scheduler-visible state it already went through since it was switched in is
      * busy-waiting (e.g. ZSTD_compressStream2 re-trying POOL_tryAdd until a worker is free).  Waiting must be visible:
      * such a point is treated as a yield - the other enabled threads come first and staying on the spinner is the
@@ -114,9 +128,9 @@ static void pick_and_switch(int exiting) {
             const char* w = T[i].op == OP_LOCK ? "lock" : T[i].op == OP_RELOCK ? (T[i].signalled ? "relock" : "cond") : T[i].op == OP_JOIN ? "join" : "?";
             o += snprintf(buf + o, sizeof buf - o, " t%d:%s", i, w);
         }
-        active = 0; cfg.fail(buf); _exit(43);
+        active = 0; TS_IGN(1); cfg.fail(buf); _exit(43);
     }
-    int c = (n == 1) ? 0 : cfg.pick(n, curEnabled ? 2 : 1);
+    int c = 0; if (n > 1) { TS_IGN(1); c = cfg.pick(n, curEnabled ? 2 : 1); TS_IGN(0); }
     int t = E[c];
     if (S[c]) { /* spurious wake-up */ T[t].signalled = 1; if (T[t].c >= 0) remove_waiter(&C[T[t].c], t); T[t].spur = 1; }
     if (t == cur && !exiting) return;
@@ -151,7 +165,7 @@ int vf_mutex_lock(pthread_mutex_t* m) {
     me->op = OP_LOCK; me->m = i; me->site = SITE();
     counters[0]++;
     pick_and_switch(0);
-    M[i].owner = cur; T[cur].op = OP_NONE;
+    M[i].owner = cur; T[cur].op = OP_NONE; TS_ACQ(m);
     return 0;
 }
 int vf_mutex_unlock(pthread_mutex_t* m) {
@@ -159,7 +173,7 @@ int vf_mutex_unlock(pthread_mutex_t* m) {
     int i = find_mutex(m, 0);
     if (i < 0 || M[i].owner != cur) fail("unlock of a mutex not held by t%d", NULL, cur);
     if (cfg.unlock_is_point) { T[cur].op = OP_UNLOCK; T[cur].site = SITE(); pick_and_switch(0); T[cur].op = OP_NONE; }
-    M[i].owner = -1;
+    TS_REL(m); M[i].owner = -1;
     return 0;
 }
 int vf_cond_init(pthread_cond_t* c, const pthread_condattr_t* a) {
@@ -180,11 +194,11 @@ int vf_cond_wait(pthread_cond_t* c, pthread_mutex_t* m) {
     if (mi < 0 || M[mi].owner != cur) fail("cond_wait with a mutex not held by t%d", NULL, cur);
     me->op = OP_WAIT; me->site = SITE();
     pick_and_switch(0);                       /* the wait itself is a visible operation */
-    M[mi].owner = -1; C[ci].w[C[ci].nw++] = self; me->signalled = 0; me->spur = 0;
+    TS_REL(m); M[mi].owner = -1; C[ci].w[C[ci].nw++] = self; me->signalled = 0; me->spur = 0;
     me->op = OP_RELOCK; me->m = mi; me->c = ci;
     counters[1]++;
     pick_and_switch(0);                       /* not enabled until signalled (or spuriously woken) and the mutex is free */
-    M[mi].owner = self; me->op = OP_NONE; me->c = -1;
+    M[mi].owner = self; me->op = OP_NONE; me->c = -1; TS_ACQ(m);
     return 0;
 }
 int vf_cond_signal(pthread_cond_t* c) {
@@ -195,7 +209,7 @@ int vf_cond_signal(pthread_cond_t* c) {
     pick_and_switch(0);
     T[cur].op = OP_NONE;
     if (C[ci].nw) {
-        int k = (C[ci].nw > 1) ? cfg.pick(C[ci].nw, 1) : 0;
+        int k = 0; if (C[ci].nw > 1) { TS_IGN(1); k = cfg.pick(C[ci].nw, 1); TS_IGN(0); }
         int t = C[ci].w[k];
         T[t].signalled = 1; remove_waiter(&C[ci], t);
     }
